@@ -103,6 +103,19 @@ def main():
     skipped = [c for c in cases if "skip" in c]
     cases = [c for c in cases if "skip" not in c]
     by_id = {c["id"]: c for c in cases}
+    # 2b. thermal connectivity: nets with p / t / pt feeders solved in sequential mode (thermal result pattern)
+    from . import c01
+    TH = dict(MaxJ="= 4", MaxE="= 4", MaxN="= 3", MaxPV="= 1", Kinds="<- KindsAll", NKinds="<- NKindsTherm", TogJ="= FALSE")
+    r3, nets3 = gen_nets(TH, simulate="num=%d" % (60 if tr == "quick" else 900), depth=18, seed=3000 + sd, timeout=1200)
+    nets3 = [n for n in nets3 if n["sup"]]
+    if len(nets3) > (900 if tr == "quick" else 20000):
+        nets3 = rnd.sample(nets3, 900 if tr == "quick" else 20000)
+    topts = dict(PF_OPTS, mode="sequential", max_iter_therm=40, tol_T=1e-8)
+    tjobs = [{"id": "t%d" % i, "an": n["net"], "opts": topts, "check": ["C04", "C04T"], "prune": False,
+              "params": c01.row_params(n["net"])} for i, n in enumerate(nets3)]
+    tcases = [c for c in core.pmap(pf.run_case_prune, tjobs, chunksize=16) if "skip" not in c]
+    cases = cases + tcases
+    by_id = {c["id"]: c for c in cases}
     # 3. code -> spec: TLC decides every clause on every recorded case
     res, fails = validate(cases)
     import collections
@@ -126,6 +139,7 @@ def main():
            "outcomes": dict(outcomes), "skipped_builds": len(skipped),
            "partly_supplied_returned_cases": nontriv,
            "pruned_pairs": sum(1 for c in cases if "pnet" in c),
+           "thermal_pattern_cases": len(tcases), "thermal_pattern_returned": sum(1 for c in tcases if c["outcome"] == "returned"),
            "failing_clause_counts": dict(clause_count),
            "evaluations": len(cases), "distinct_nontrivial": nontriv,
            "rule": "distinct abstract nets emitted by TLC (exhaustive small config + seeded simulation of a larger "
@@ -134,7 +148,7 @@ def main():
     core.write_evidence("C04", "model_checking", cov, time.time() - t0, len(V.violations),
                         assumptions=["numbers are classified NaN/finite and quantised to 1e-9 ticks by harness/netio.project",
                                      "pruned-net comparison tolerance 2e-7 (bar, kg/s) with solver tolerances 1e-10",
-                                     "thermal connectivity is checked by C10's check, not here"])
+                                     "thermal pattern: sequential mode, junctions outside the thermally supplied part must report the ambient temperature (293.15 K)"])
     print("C04 %s: model states=%d, nets replayed=%d (%s), violations=%d, known=%d, %.0fs"
           % (tr, states, len(cases), dict(outcomes), len(V.violations), len(V.known), time.time() - t0))
     return rc
